@@ -279,6 +279,26 @@ func init() {
 			acCachedCases(add)
 			acJoinedDictionaries(add)
 			acLongListsShared(add)
+			// a text the pattern field REFUSES (an untyped list holding a non-string) between good queries, on an index whose
+			// pattern field has catch-all conjunctions (documents without an include on it)
+			{
+				kw := func(inc bool, ss ...string) eExpr {
+					l := make([]TV, len(ss))
+					for i, x := range ss {
+						l[i] = tvStr(x)
+					}
+					return eExpr{F: 1, Inc: inc, V: tvSlice("[]string", l...)}
+				}
+				c := rCase{Fields: []rField{{F: 0, Cont: "default"}, {F: 1, Cont: "ac_matcher"}}}
+				c.Docs = []eDoc{
+					{ID: 1, Cons: []eConj{{kw(true, "big sale"), {F: 0, Inc: true, V: tvStr("sh")}}}},
+					{ID: 2, Cons: []eConj{{{F: 0, Inc: true, V: tvStr("bj")}}}},
+					{ID: 3, Cons: []eConj{{kw(false, "sale")}}},
+					{ID: 4, Cons: []eConj{{kw(true, "hello"), {F: 0, Inc: false, V: tvStr("sh")}}}},
+				}
+				good := [][]eAssign{{{F: 1, V: tvStr("a big sale now")}, {F: 0, V: tvStr("sh")}}, {{F: 1, V: tvStr("hello world")}, {F: 0, V: tvStr("sh")}}, {{F: 1, V: tvStr("hello")}, {F: 0, V: tvStr("gz")}}}
+				add(refusedQueryRounds(c, good, []eAssign{{F: 1, V: tvList(tvStr("big sale"), tvInt("int", 5))}, {F: 0, V: tvStr("sh")}}, 6))
+			}
 			acSecondBuild(add)
 			for i := 0; i < n; i++ {
 				acTwoPatternFields = i%4 == 1 || i%4 == 3 // two pattern fields: each must keep its own keywords
@@ -362,6 +382,7 @@ func acCachedCases(add func(in interface{})) {
 			}
 		}
 		add(cacheIn{Cache: true, Case: c, Thr: 2, Seed: 91, MissPct: 0, DropPct: 0})
+		add(cacheIn{Cache: true, Case: c, Thr: 2, Seed: 191, MissPct: 0, DropPct: 0, Trunc: 60}) // some writes cut short: entries found with their payload lost
 		add(cacheIn{Cache: true, Case: c, Thr: 2, Seed: 92, MissPct: 30, DropPct: 0, Retain: true})
 	}
 }
